@@ -25,7 +25,9 @@ package encoding
 import (
 	"bytes"
 	"encoding/json"
-	"fmt"
+	"errors"
+	"io"
+	"strconv"
 	"strings"
 
 	"github.com/danos/encoding/rfc7951"
@@ -57,7 +59,16 @@ func decodeValue(val interface{}) (string, error) {
 			return "false", nil
 		}
 	case float64: // Non-empty Leaf containing number of any sort
-		return fmt.Sprintf("%d", int(typeValue)), nil
+		return strconv.FormatFloat(typeValue, 'f', -1, 64), nil
+	case json.Number: // Number whose text was kept (64-bit values do not fit a float64)
+		if s := typeValue.String(); !strings.ContainsAny(s, ".eE") {
+			return s, nil
+		}
+		f, err := typeValue.Float64()
+		if err != nil {
+			return "", err
+		}
+		return strconv.FormatFloat(f, 'f', -1, 64), nil
 	case nil: // Empty leaf
 		return "", nil
 	default:
@@ -181,8 +192,13 @@ func unmarshalJSONInternal(
 			return nil, err
 		}
 	} else {
-		if err := json.Unmarshal(json_input, &jr.decodedMsg); err != nil {
+		dec := json.NewDecoder(bytes.NewReader(json_input))
+		dec.UseNumber()
+		if err := dec.Decode(&jr.decodedMsg); err != nil {
 			return nil, err
+		}
+		if _, err := dec.Token(); err != io.EOF {
+			return nil, errors.New("invalid data after top-level value")
 		}
 	}
 
